@@ -184,8 +184,8 @@ def match_pair(pair):
 
 # ---------------------------------------------------------------- assignment expressions and look-ups
 
-def walrus_header(mapping, key):
-    if (value := mapping.get(key)) is None:
+def walrus_header(attrs, key):
+    if (value := attrs.get(key)) is None:
         return 'absent'
     return value
 
@@ -206,8 +206,8 @@ def walrus_while(items):
     return total
 
 
-def walrus_expression(mapping, key, known):
-    return (name := mapping.get(key)) is not None and name in known
+def walrus_expression(attrs, key, known):
+    return (name := attrs.get(key)) is not None and name in known
 
 
 def get_local(attrs, names):
@@ -254,10 +254,17 @@ def setdefault_statement(source, dest):
     return dest
 
 
-def get_test(mapping, key):
-    if mapping.get(key) is not None:
-        return mapping[key]
+def get_test(attrs, key):
+    if attrs.get(key) is not None:
+        return attrs[key]
     return None
+
+
+def get_test_encoding(encoding, key):
+    """An encoding can hold None (`_FillValue: None` records "no fill value"): `.get(k) is None` is not `k not in encoding` and is left alone."""
+    if encoding.get(key) is None:
+        return 'no fill value'
+    return encoding[key]
 
 
 # ---------------------------------------------------------------- collections
@@ -1042,9 +1049,9 @@ def dict_union_spread(flag):
     return table
 
 
-def get_conjunction(mapping, known):
-    if mapping.get('k') is not None and mapping.get('k') in known:
-        return mapping.get('k')
+def get_conjunction(attrs, known):
+    if attrs.get('k') is not None and attrs.get('k') in known:
+        return attrs.get('k')
     return None
 
 
@@ -1322,6 +1329,7 @@ CASES = {
     'try_lookup_continue': [(HOLDER_AB, {'b1'}), (HOLDER_AB, set()), (HOLDER_CA, {'b1', None})],
     'setdefault_statement': [({'a': 1, 'b': 2}, {'a': 0}), ({}, {}), ({'a': None}, {})],
     'get_test': [({'k': 1}, 'k'), ({}, 'k'), ({'k': 0}, 'k')],
+    'get_test_encoding': [({'k': 1}, 'k'), ({}, 'k'), ({'k': None}, 'k'), ({'k': 0}, 'k')],
     'conditional_element': [(True,), (False,)],
     'conditional_element_negated': [(True,), (False,)],
     'enumerated_dict': [([1, None, 3],), ([],), ([None],), ([2, 2],)],
